@@ -44,6 +44,11 @@ impl Prop for C12 {
             return json!({"prog": {"source": src, "stack_inputs": [], "advice_stack": []}, "knobs": pop::knobs(rng), "challenges": pop::challenges(rng), "challenges_2": pop::challenges(rng)});
         }
         if rng.chance(1, 12) {
+            let mut sc = crate::gen::boundary::scenario(rng);
+            sc["challenges_2"] = json!(pop::challenges(rng));
+            return sc;
+        }
+        if rng.chance(1, 12) {
             let mut sc = pop::stdlib_scenario(rng);
             sc["challenges_2"] = json!(pop::challenges(rng));
             return sc;
